@@ -168,7 +168,8 @@ MARKER = object()
 
 
 class TreeBuilder(object):
-    def __init__(self, text, scripting=False, context=None, final=True):
+    def __init__(self, text, scripting=False, context=None, final=True, dev=frozenset()):
+        self.dev = dev              # emulated html5lib deviations: used ONLY to name a mismatch, never as the oracle
         self.scripting = scripting
         self.doc = Node("document")
         self.mode = "initial"
@@ -238,9 +239,12 @@ class TreeBuilder(object):
         if t[0] == "Character" and self.ignore_lf:
             self.ignore_lf = False
             if t[1] == "\n":
-                return
+                if "sticky-ignore-lf" not in self.dev or (
+                        self.current is not None and self.current.html("pre", "listing", "textarea") and not self.current.children):
+                    return
         elif self.ignore_lf and t[0] != "Character":
-            self.ignore_lf = False
+            if "sticky-ignore-lf" not in self.dev:
+                self.ignore_lf = False
         acn = self.adjusted_current_node()
         kind = t[0]
         if (not self.stack or acn.ns == HTML or
@@ -1765,7 +1769,23 @@ def suspended(text, scripting=False, context=None):
     return skeleton(tb)
 
 
-def parse(text, scripting=False, context=None):
-    tb = TreeBuilder(text, scripting=scripting, context=context)
+DEVIATIONS = []      # ("sticky-ignore-lf" was repaired in /repo; the emulation stays available for triage)
+
+
+def classify(text, observed, scripting=False, context=None):
+    """smallest set of modelled html5lib deviations under which the reference reproduces `observed` (or None)"""
+    import itertools
+    for k in range(1, len(DEVIATIONS) + 1):
+        for combo in itertools.combinations(DEVIATIONS, k):
+            try:
+                if parse(text, scripting, context, frozenset(combo)) == observed:
+                    return combo
+            except Exception:
+                pass
+    return None
+
+
+def parse(text, scripting=False, context=None, dev=frozenset()):
+    tb = TreeBuilder(text, scripting=scripting, context=context, dev=dev)
     tb.run()
     return tb.canonical()
